@@ -420,14 +420,20 @@ Proof.
   apply no_put_bind; [exact IHk|]. intros r. constructor.
 Qed.
 
-Lemma remaining_links_np g cs names : forall acc, no_put (remaining_links c g cs names acc).
+Lemma remaining_links_np g cs cur names : forall acc, no_put (remaining_links c g cs cur names acc).
 Proof.
   induction names as [|n rest IH]; intros acc; cbn [remaining_links]; [constructor|].
-  destruct (find (fun kv => fst kv =? n) g) as [[k v]|].
-  - destruct (mem n cs); [apply IH|].
-    apply no_put_bind; [apply no_mut_no_put, load_tree_nm|]. intros [t| |e]; try constructor. apply IH.
-  - apply no_put_bind; [apply no_mut_no_put, load_root_any_nm|]. intros [v|]; [|apply IH].
-    apply no_put_bind; [apply no_mut_no_put, load_tree_nm|]. intros [t| |e]; try constructor. apply IH.
+  assert (K : forall v, no_put (bind (load_tree c v) (fun l =>
+              match l with
+              | LTree _ => remaining_links c g cs cur rest (match v_link v with Some x => x :: acc | None => acc end)
+              | LGone => Fail E_LOADTREE
+              | LErr e => Fail e
+              end))).
+  { intros v. apply no_put_bind; [apply no_mut_no_put, load_tree_nm|]. intros [t| |e]; try constructor. apply IH. }
+  destruct (match find (fun kv => fst kv =? n) g with Some (_, v) => if mem n cs then None else Some v | None => None end) as [v|].
+  - apply K.
+  - destruct (mem n cur); [|apply IH].
+    apply no_put_bind; [apply no_mut_no_put, load_root_any_nm|]. intros [v|]; [apply K|apply IH].
 Qed.
 
 Lemma keep_reachable_np h g cs blocks : no_put (keep_reachable c h g cs blocks).
